@@ -32,7 +32,7 @@ m = {
     "setup_cmd": "./check --setup",
     "hooks": {
         "guard": "rbpf_verif",
-        "enable": "RUSTFLAGS --cfg rbpf_verif, set for the harness in harness/.cargo/config.toml (rbpf is a path dependency on /repo, so every check rebuilds it from the working tree)",
+        "enable": "RUSTFLAGS --cfg rbpf_verif, set for the harness in harness/.cargo/config.toml (rbpf is a path dependency on /repo, so every check rebuilds it from the working tree); for the execution recorder (H3) the checks run /repo's own tests with RUSTFLAGS=--cfg rbpf_verif and RBPF_VERIF_TRACE_DIR set, in a target directory under work/",
         "baseline_off_cmd": "cd /repo && cargo nextest run --workspace --no-fail-fast --test-threads 8 --offline",
         "source_commits": [h.split()[0] for h in hooks_commits],
         "add_only": True,
